@@ -21,6 +21,8 @@ pub fn lines_cfg() -> Cfg {
     c.max_depth = 4;
     c.w_repeat = 4;
     c.device_whiles = false;
+    // `declare` lines too (a row may stand on the line right after one)
+    c.max_virtual = 2;
     c
 }
 
@@ -115,7 +117,7 @@ impl Property for C19 {
         }
     }
     fn required_classes(&self) -> Vec<&'static str> {
-        vec!["crlf", "mixed-line-ends", "lead-blank", "comment-lines", "no-final-newline", "row-in-loop", "static-run", "repeat", "C-row", "X-row", "last-line-is-row-without-newline", "row-after-driver-failure", "second-of-identical-rows-checked", "loaded-from-a-dig-document"]
+        vec!["crlf", "mixed-line-ends", "lead-blank", "comment-lines", "no-final-newline", "row-in-loop", "static-run", "repeat", "C-row", "X-row", "last-line-is-row-without-newline", "row-after-driver-failure", "second-of-identical-rows-checked", "loaded-from-a-dig-document", "rows-beyond-line-65535", "declare"]
     }
     fn run(&self, s: &Streams) -> CaseOut {
         let mut out = CaseOut::new();
@@ -132,7 +134,8 @@ impl Property for C19 {
         let lines = program_lines(&built.prog);
         // one case in six (if no signal is bidirectional) goes through a .dig document: the
         // lines are still counted from the start of the test's own source text
-        let via_dig = tch.chance(1, 6) && !built.sigs.iter().any(|s| matches!(s.kind, Kind::Bidir(_)));
+        // (the .dig loader takes every header name for a pin: no virtual signals there)
+        let via_dig = tch.chance(1, 6) && !built.sigs.iter().any(|s| matches!(s.kind, Kind::Bidir(_))) && built.analysis.virtuals.is_empty();
         let r = render(&lines, &mut Ch::new(&s[1]), LayoutOpts::ALL);
         let mut dch = Ch::new(&s[2]);
         let mut spec = gen_spec(
@@ -144,6 +147,17 @@ impl Property for C19 {
         // that follow still report their own lines
         if dch.chance(1, 4) {
             spec.fail_at = Some(1 + dch.upto(12));
+        }
+        // one text in four hundred has 66 000 more blank lines in front of everything (the header
+        // may be preceded by any number of them): rows then sit on lines beyond 65 535
+        let mut r = r;
+        if tch.chance(1, 400) {
+            const N: usize = 66_000;
+            r.text = format!("{}{}", "\n".repeat(N), r.text);
+            for l in r.row_line.iter_mut() {
+                *l += N;
+            }
+            out.class("rows-beyond-line-65535");
         }
         render_case(&mut out, &r.text, &built.sigs, Some(&spec));
         let f = feats(&built);
